@@ -36,7 +36,7 @@ def mandatory_bins(tier):
     return [
         "empty_dict", "delete_key", "delete_value", "set_value", "merged_group", "multi_block", "block_size_115", "block_size_116", "block_size_117",
         "single_entry_116", "single_entry_117", "single_entry_118_oversize", "oversize_first", "oversize_middle", "oversize_last",
-        "unrepresentable_refused_or_encoded", "extra_blocks", "content_len_0", "content_len_254", "key_0", "key_ffff", "vid_0", "vid_fe", "all_fit", "set_config_replaces_older_configuration_with_other_tags", "description_of_an_earlier_configuration_component_edited_by_the_caller", "extra_blocks_given_as_one_shot_iterator", "extra_blocks_given_as_generator",
+        "unrepresentable_refused_or_encoded", "extra_blocks", "content_len_0", "content_len_254", "key_0", "key_ffff", "vid_0", "vid_fe", "all_fit", "set_config_replaces_older_configuration_with_other_tags", "description_of_an_earlier_configuration_component_edited_by_the_caller", "extra_blocks_given_as_one_shot_iterator", "extra_blocks_given_as_generator", "contents_given_as_bytearray_or_memoryview",
     ]
 
 
@@ -68,6 +68,11 @@ def judge(ns, ctx, conf, extras, via):
     if extras:
         ctx.bin("extra_blocks")
     expected = model.expected_ops(conf)
+    arg_conf = dict(conf)
+    if len(conf) % 5 == 3:
+        # contents handed over as bytearray / memoryview
+        arg_conf = {k: (c if c is None else (bytearray(c) if (k[0] + (k[1] or 0)) % 2 else memoryview(bytes(c)))) for k, c in conf.items()}
+        ctx.bin("contents_given_as_bytearray_or_memoryview")
     try:
         pre = False
         if via == "set_config":
@@ -89,14 +94,14 @@ def judge(ns, ctx, conf, extras, via):
                     ctx.bin("extra_blocks_given_as_generator")
                 else:
                     xs = list(extras)
-                f.set_config(dict(conf), xs)
+                f.set_config(dict(arg_conf), xs)
             else:
-                f.set_config(dict(conf))
+                f.set_config(dict(arg_conf))
             ctx.mon("set_config")
             comp = f.components[-1]
             blob = comp.blob
         else:
-            blocks_direct = BF.conf_dict_to_tlv(dict(conf))
+            blocks_direct = BF.conf_dict_to_tlv(dict(arg_conf))
             ctx.mon("conf_dict_to_tlv")
             blob = b"".join(bytes((len(b),)) + b for b in blocks_direct) + b"\x00"
             comp = None
